@@ -3,6 +3,7 @@ package c16
 import (
 	"bytes"
 	"fmt"
+	"github.com/tink-crypto/tink-go/v2/insecuresecretdataaccess"
 	"testing"
 
 	"pgregory.net/rapid"
@@ -488,6 +489,35 @@ func TestTinkAPIAllSets(t *testing.T) {
 			id := uint32(0)
 			if variant == tk.Tink {
 				id = 0x01020304 + uint32(i)
+			}
+			// a key GENERATED by Tink for these parameters (keyset.Manager -> key creator): its public
+			// part must be the FIPS 205 public key of its own secret seeds (added after seeded change
+			// C16e, where the creator for one set called another set's KeyGen; n was equal, so every
+			// length check passed)
+			{
+				m := keyset.NewManager()
+				gid, err := m.AddNewKeyFromParameters(params)
+				if err != nil {
+					t.Fatalf("%s: AddNewKeyFromParameters: %v", p.name, err)
+				}
+				if err := m.SetPrimary(gid); err != nil {
+					t.Fatal(err)
+				}
+				ge := tk.Must(tk.Must(m.Handle()).Primary())
+				gk, ok := ge.Key().(*slhdsa.PrivateKey)
+				if !ok {
+					t.Fatalf("%s: generated key is a %T", p.name, ge.Key())
+				}
+				gb := gk.PrivateKeyBytes().Data(insecuresecretdataaccess.Token{})
+				if len(gb) != 4*n {
+					t.Fatalf("%s: generated private key has %d bytes, want %d", p.name, len(gb), 4*n)
+				}
+				wsk, wpk := p.r.KeyGenInternal(gb[:n], gb[n:2*n], gb[2*n:3*n])
+				gpub := tk.Must(gk.PublicKey()).(*slhdsa.PublicKey)
+				if !bytes.Equal(gb, wsk) || !bytes.Equal(gpub.KeyBytes(), wpk) {
+					t.Fatalf("%s variant=%s: the key Tink generated is not a FIPS 205 key pair of this parameter set: private key %x\n public key %x\n reference for the same seeds: private key %x public key %x", p.name, variant, gb, gpub.KeyBytes(), wsk, wpk)
+				}
+				evid.Add("generated_keys_checked", 1)
 			}
 			priv, err := slhdsa.NewPrivateKey(tk.Secret(rsk), id, params)
 			if err != nil {
